@@ -342,7 +342,7 @@ macro_rules! each_harness {
 }
 //@K props=C14,C01 tier=quick label=bnd feat=std fn=<EachasClause>::deconstruct,Each::call bound=patterns=0
 each_harness!(each_n0, 0);
-//@K props=C14,C01 tier=quick label=bnd feat=std fn=<EachasClause>::deconstruct,Each::call bound=patterns=2
+//@K props=C14,C01 tier=quick label=bnd feat=std fn=<EachasClause>::deconstruct,Each::call bound=patterns=1
+each_harness!(each_n1, 1);
+//@K props=C14,C01 tier=thorough label=bnd feat=std fn=<EachasClause>::deconstruct,Each::call bound=patterns=2 timeout=1200
 each_harness!(each_n2, 2);
-//@K props=C14,C01 tier=thorough label=bnd feat=std fn=<EachasClause>::deconstruct,Each::call bound=patterns=3 timeout=1200
-each_harness!(each_n3, 3);
